@@ -22,11 +22,29 @@
 //!    name of a well-known method (that is C01's finding, not this property's).
 //!  * Request-URIs carry no `?headers` (RFC 3261 Table 1 forbids them in a Request-URI); user, host and
 //!    parameter shapes are built through the public `SipUri` API.
-//!  * in `challenge_sequences` all challenges of one realm in one response share the nonce and carry
-//!    distinct algorithms (RFC 8760 §2.4 usage), so the answered challenge is identified by `algorithm`
-//!    and "same nonce again" is unambiguous.
+//!  * in `challenge_sequences` / `failure_histories` all challenges of one realm in one response share the
+//!    nonce and carry distinct algorithms (RFC 8760 §2.4 usage), so the answered challenge is identified by
+//!    `algorithm` and "same nonce again" is unambiguous.
 //!
-//! Not asserted: case of the `nc` digits (text is hashed verbatim, value compared numerically);
+//! Histories ("a repeated challenge with an unchanged nonce is reported as failed authentication instead of
+//! being answered again"): the model keeps TWO things per realm — what the client currently sends (`state`)
+//! and what the SERVER remembers, the nonce of the latest answer it verified (`srv_nonce`). A group with
+//! `repeat` issues that nonce again, either with the identical challenge rows (`same_rows`) or with other
+//! rows (other algorithm / qop / opaque / header kind), for the 1st, 2nd, 3rd .. consecutive time, with or
+//! without the client having reused the answer in between, with or without a request being sent after the
+//! reported failure (`give_up_on_failure`: a caller that got `Err` for every realm does not call
+//! `authorize_request`). Every such response must make `handle_authenticate` return
+//! `FailedToAuthenticate` and must not produce new credentials — also when the client stopped sending the
+//! entry after the previous failure (the nonce is still the one of its last answer). A fresh nonce after
+//! any number of repetitions must be answered and verify. `failure_histories` draws 3..8 responses over
+//! 1..2 realms that all have credentials from {fresh supported, identical repetition, repetition with other
+//! rows, fresh nonce without supported challenge}; `challenge_sequences` keeps the broad mix (up to 4
+//! realms, realms without credentials, unknown algorithms, Basic rows).
+//!
+//! Not asserted: what a challenge with the OLD nonce means after the client dropped (or, no request having
+//! been sent, may have dropped) the entry because a challenge with a NEW nonce could not be answered (the
+//! server forgets the old nonce there; while the entry is visibly still sent the old nonce counts as
+//! unchanged); which realms the error text names; case of the `nc` digits (text is hashed verbatim, value compared numerically);
 //! reuse for a different request (the API gives `on_authorize_request` no request); whether `cnonce`
 //! changes between reuses of a non-session algorithm; which of auth / auth-int is picked when both
 //! are offered; whether a client without userhash support sends the plain name; whether an entry whose
@@ -222,6 +240,10 @@ pub struct GroupS {
     /// nonce used when not repeating
     nonce: String,
     rows: Vec<RowS>,
+    /// when repeating: issue exactly the rows this realm was challenged with last time (the server sends
+    /// the identical challenge again) instead of `rows` (same nonce, other algorithm / qop / opaque / kind)
+    #[serde(default)]
+    same_rows: bool,
 }
 
 #[derive(Serialize, Deserialize, Debug, Clone)]
@@ -231,6 +253,10 @@ pub struct RoundS {
     basic_noise: bool,
     /// number of `authorize_request` calls after this response (>= 1)
     uses: u8,
+    /// the caller gives up when `handle_authenticate` could answer nothing: no `authorize_request` call
+    /// after a response none of whose realms is expected to be answered
+    #[serde(default)]
+    give_up_on_failure: bool,
 }
 
 /// case of `challenge_sequences` (and the internal form of `first_use_and_reuse`)
@@ -439,6 +465,7 @@ struct GroupGen {
     proxy: bool,
     mixed: bool,
     rows: Vec<(bool, ChSpec)>,
+    same_rows: bool,
 }
 
 fn group_gen() -> BoxedStrategy<GroupGen> {
@@ -449,16 +476,113 @@ fn group_gen() -> BoxedStrategy<GroupGen> {
         any::<bool>(),
         prop::bool::weighted(0.12),
         prop::collection::vec((any::<bool>(), chspec(false)), 1..=3),
+        any::<bool>(),
     )
-        .prop_map(|(realm_sel, repeat, nonce, proxy, mixed, rows)| GroupGen {
+        .prop_map(|(realm_sel, repeat, nonce, proxy, mixed, rows, same_rows)| GroupGen {
             realm_sel,
             repeat,
             nonce,
             proxy,
             mixed,
             rows,
+            same_rows,
         })
         .boxed()
+}
+
+/// one event of a `failure_histories` round: what the server does to one realm
+///  0 fresh nonce, supported challenges      1 the identical challenge again (unchanged nonce)
+///  2 unchanged nonce, other challenge rows   3 fresh nonce, no supported challenge
+fn history_group_gen() -> BoxedStrategy<GroupGen> {
+    (
+        any::<u16>(),
+        prop_oneof![3 => Just(0u8), 3 => Just(1u8), 2 => Just(2u8), 1 => Just(3u8)],
+        nonce_strategy(false),
+        any::<bool>(),
+        prop::bool::weighted(0.12),
+        prop::collection::vec((any::<bool>(), chspec(true)), 1..=2),
+    )
+        .prop_map(|(realm_sel, ev, nonce, proxy, mixed, mut rows)| {
+            if ev == 3 {
+                // unknown algorithm, or only an unknown qop token
+                for (i, (flip, ch)) in rows.iter_mut().enumerate() {
+                    if *flip || i > 0 {
+                        ch.alg = 6 + (ch.alg & 1);
+                    } else {
+                        ch.qop = 7;
+                    }
+                }
+            }
+            GroupGen { realm_sel, repeat: ev == 1 || ev == 2, nonce, proxy, mixed, rows, same_rows: ev == 1 }
+        })
+        .boxed()
+}
+
+type RoundGen = (Vec<GroupGen>, bool, u8, bool);
+
+#[allow(clippy::too_many_arguments)]
+fn assemble(
+    realms_in: Vec<String>,
+    entries_in: Vec<Option<Cred>>,
+    default: Option<Cred>,
+    unrelated: Option<Cred>,
+    enforce_qop: bool,
+    reject_md5: bool,
+    req: ReqSpec,
+    rounds_in: Vec<RoundGen>,
+) -> Scenario {
+    // distinct realms by construction
+    let mut realms: Vec<String> = vec![];
+    for (i, r) in realms_in.into_iter().enumerate() {
+        if realms.contains(&r) {
+            realms.push(format!("{r}#{i}"));
+        } else {
+            realms.push(r);
+        }
+    }
+    let entries: Vec<Option<Cred>> = entries_in.into_iter().take(realms.len()).collect();
+    let unrelated = unrelated
+        .into_iter()
+        .map(|c| {
+            let mut name = String::from("unrelated.example");
+            while realms.contains(&name) {
+                name.push('x');
+            }
+            (name, c)
+        })
+        .collect();
+    let mut rounds = vec![];
+    for (ri, (groups_in, basic_noise, uses, give_up_on_failure)) in rounds_in.into_iter().enumerate() {
+        let mut groups: Vec<GroupS> = vec![];
+        for g in groups_in {
+            let realm = pick_idx(g.realm_sel, realms.len());
+            if groups.iter().any(|x| x.realm == realm) {
+                continue; // a realm is challenged by one group per response
+            }
+            // distinct algorithms inside the group
+            let mut rows: Vec<RowS> = vec![];
+            for (flip, mut ch) in g.rows {
+                // (a second unknown algorithm stays unknown while there is room: 6 <-> 7)
+                if ch.alg >= 6 && rows.iter().any(|r| r.ch.alg == ch.alg) {
+                    ch.alg = 13 - ch.alg;
+                }
+                while rows.iter().any(|r| r.ch.alg == ch.alg) {
+                    ch.alg = (ch.alg + 1) % 8;
+                }
+                rows.push(RowS { proxy: g.proxy ^ (g.mixed && flip), ch });
+            }
+            // a fresh nonce ends in the round number: differs from every nonce of another round
+            groups.push(GroupS {
+                realm,
+                repeat: g.repeat,
+                nonce: format!("{}{}", g.nonce, ri),
+                rows,
+                same_rows: g.same_rows,
+            });
+        }
+        rounds.push(RoundS { groups, basic_noise, uses, give_up_on_failure });
+    }
+    Scenario { realms, entries, default, unrelated, enforce_qop, reject_md5, req, rounds }
 }
 
 fn scenario_strategy() -> BoxedStrategy<Scenario> {
@@ -466,6 +590,7 @@ fn scenario_strategy() -> BoxedStrategy<Scenario> {
         prop::collection::vec(group_gen(), 1..=3),
         prop::bool::weighted(0.15),
         1..=3u8,
+        prop::bool::weighted(0.25),
     );
     (
         prop::collection::vec(qdtext(false), 1..=4),
@@ -477,48 +602,32 @@ fn scenario_strategy() -> BoxedStrategy<Scenario> {
         prop::collection::vec(round, 1..=4),
     )
         .prop_map(|(realms_in, entries_in, default, unrelated, (enforce_qop, reject_md5), req, rounds_in)| {
-            // distinct realms by construction
-            let mut realms: Vec<String> = vec![];
-            for (i, r) in realms_in.into_iter().enumerate() {
-                if realms.contains(&r) {
-                    realms.push(format!("{r}#{i}"));
-                } else {
-                    realms.push(r);
-                }
-            }
-            let entries: Vec<Option<Cred>> = entries_in.into_iter().take(realms.len()).collect();
-            let unrelated = unrelated
-                .into_iter()
-                .map(|c| {
-                    let mut name = String::from("unrelated.example");
-                    while realms.contains(&name) {
-                        name.push('x');
-                    }
-                    (name, c)
-                })
-                .collect();
-            let mut rounds = vec![];
-            for (ri, (groups_in, basic_noise, uses)) in rounds_in.into_iter().enumerate() {
-                let mut groups: Vec<GroupS> = vec![];
-                for g in groups_in {
-                    let realm = pick_idx(g.realm_sel, realms.len());
-                    if groups.iter().any(|x| x.realm == realm) {
-                        continue; // a realm is challenged by one group per response
-                    }
-                    // distinct algorithms inside the group
-                    let mut rows: Vec<RowS> = vec![];
-                    for (flip, mut ch) in g.rows {
-                        while rows.iter().any(|r| r.ch.alg == ch.alg) {
-                            ch.alg = (ch.alg + 1) % 8;
-                        }
-                        rows.push(RowS { proxy: g.proxy ^ (g.mixed && flip), ch });
-                    }
-                    // a fresh nonce ends in the round number: differs from every nonce of another round
-                    groups.push(GroupS { realm, repeat: g.repeat, nonce: format!("{}{}", g.nonce, ri), rows });
-                }
-                rounds.push(RoundS { groups, basic_noise, uses });
-            }
-            Scenario { realms, entries, default, unrelated, enforce_qop, reject_md5, req, rounds }
+            assemble(realms_in, entries_in, default, unrelated, enforce_qop, reject_md5, req, rounds_in)
+        })
+        .boxed()
+}
+
+/// long histories over few realms: what the session does AFTER a failure it has reported
+/// (the same nonce a 2nd, 3rd, .. time; a fresh nonce after n repetitions; an unanswerable challenge in between)
+fn history_strategy() -> BoxedStrategy<Scenario> {
+    let round = (
+        prop::collection::vec(history_group_gen(), 1..=2),
+        prop::bool::weighted(0.1),
+        1..=2u8,
+        prop::bool::weighted(0.4),
+    );
+    (
+        prop::collection::vec(qdtext(false), 1..=2),
+        // every realm can be answered: by its own entry or by the default
+        (cred_strategy(), prop::collection::vec(prop::option::weighted(0.7, cred_strategy()), 2), any::<bool>()),
+        (prop::bool::weighted(0.25), prop::bool::weighted(0.2)),
+        req_strategy(),
+        prop::collection::vec(round, 3..=8),
+    )
+        .prop_map(|(realms_in, (default, entries_in, keep_default), (enforce_qop, reject_md5), req, rounds_in)| {
+            let all_entries = entries_in.iter().take(realms_in.len()).all(|e| e.is_some());
+            let default = if all_entries && !keep_default { None } else { Some(default) };
+            assemble(realms_in, entries_in, default, None, enforce_qop, reject_md5, req, rounds_in)
         })
         .boxed()
 }
@@ -685,6 +794,8 @@ struct Flags {
     userhash: bool,
     reuse: bool,
     non_ascii_cred: bool,
+    /// a second or later consecutive repetition of the answered nonce was reported as failure
+    repeat_again: bool,
 }
 
 /// first use of credentials answering `group` (issued with `nonce`)
@@ -1083,6 +1194,18 @@ fn run_scenario(sc: &Scenario, out: &mut CaseOut) {
     // realms whose current entry failed verification: nothing more is derived from that entry
     // (no follow-on failures) until the realm is answered anew
     let mut broken: Vec<bool> = sc.realms.iter().map(|_| false).collect();
+    // the SERVER's memory per realm: the nonce of the latest answer it verified. Unlike `state` (what the
+    // client currently sends) it survives rounds in which that nonce was challenged again and the client,
+    // after reporting the failure, stopped sending the entry: the nonce is still "unchanged" when it
+    // comes a third, fourth, .. time.
+    let mut srv_nonce: Vec<Option<String>> = sc.realms.iter().map(|_| None).collect();
+    // the rows the realm was challenged with last time
+    let mut srv_rows: Vec<Option<Vec<RowS>>> = sc.realms.iter().map(|_| None).collect();
+    // number of consecutive challenges with the unchanged nonce since the answer
+    let mut repeats: Vec<u32> = sc.realms.iter().map(|_| 0).collect();
+    // a challenge of the realm could not be answered and no request was sent since: whether the client still
+    // holds the realm's entry has not been seen (dropping it is accepted, see "Not asserted")
+    let mut maybe_dropped: Vec<bool> = sc.realms.iter().map(|_| false).collect();
     let mut had_repeat_failure = false;
 
     for round in &sc.rounds {
@@ -1091,41 +1214,79 @@ fn run_scenario(sc: &Scenario, out: &mut CaseOut) {
         let mut outcomes: Vec<(usize, Outcome, String)> = vec![];
         for g in &round.groups {
             let prev = state[g.realm].as_ref();
-            let nonce = match (g.repeat, prev) {
-                (true, Some(p)) => p.nonce.clone(),
-                _ => g.nonce.clone(),
-            };
-            for r in &g.rows {
+            let known = if g.repeat { srv_nonce[g.realm].clone() } else { None };
+            let repeating = known.is_some();
+            let nonce = known.unwrap_or_else(|| g.nonce.clone());
+            let identical = repeating && g.same_rows && srv_rows[g.realm].is_some();
+            let rows: Vec<RowS> = if identical { srv_rows[g.realm].clone().unwrap() } else { g.rows.clone() };
+            for r in &rows {
                 let name = if r.proxy { Name::PROXY_AUTHENTICATE } else { Name::WWW_AUTHENTICATE };
                 chal.insert(name, r.ch.print(&sc.realms[g.realm], &nonce));
             }
             let cred = sc.entries[g.realm].as_ref().or(sc.default.as_ref());
-            let any_supported = g.rows.iter().any(|r| r.ch.supported(sc.reject_md5));
+            let any_supported = rows.iter().any(|r| r.ch.supported(sc.reject_md5));
             let oc = if cred.is_none() {
                 Outcome::NoCreds
-            } else if prev.map_or(false, |p| p.nonce == nonce) {
+            } else if repeating {
                 Outcome::Repeat
             } else if !any_supported {
                 Outcome::Unsupported
             } else {
                 Outcome::Answer
             };
+            if oc == Outcome::Repeat {
+                repeats[g.realm] += 1;
+                out.class(match repeats[g.realm] {
+                    1 => "repeat:1st-repetition-of-the-answered-nonce",
+                    2 => "repeat:2nd-consecutive-repetition",
+                    _ => "repeat:3rd+-consecutive-repetition",
+                });
+                out.class(if identical { "repeat:identical-challenge" } else { "repeat:same-nonce-other-rows" });
+                if let Some(p) = prev {
+                    if rows.iter().all(|r| r.proxy != p.proxy) {
+                        out.class("repeat:in-the-other-header-kind");
+                    }
+                    if p.uses > 1 {
+                        out.class("repeat:after-the-answer-was-reused");
+                    }
+                } else {
+                    out.class("repeat:after-the-client-dropped-the-entry");
+                }
+                if !any_supported {
+                    out.class("repeat:without-supported-challenge");
+                }
+            } else {
+                if oc == Outcome::Answer && repeats[g.realm] >= 2 {
+                    out.class("round:new-nonce-after-2+-repetitions");
+                }
+                if oc == Outcome::Unsupported && srv_nonce[g.realm].is_some() {
+                    out.class("round:unanswerable-new-nonce-for-answered-realm");
+                }
+                if oc != Outcome::NoCreds {
+                    repeats[g.realm] = 0;
+                }
+            }
+            srv_rows[g.realm] = Some(rows);
             outcomes.push((g.realm, oc, nonce));
         }
         if round.basic_noise {
             chal.insert(Name::WWW_AUTHENTICATE, "Basic realm=\"basic.example\"");
             out.class("response:with-basic-scheme-row");
         }
-        if round.groups.iter().any(|g| g.rows.iter().any(|r| r.proxy) && g.rows.iter().any(|r| !r.proxy)) {
+        if round.groups.iter().any(|g| {
+            let rows = srv_rows[g.realm].as_deref().unwrap_or(&g.rows);
+            rows.iter().any(|r| r.proxy) && rows.iter().any(|r| !r.proxy)
+        }) {
             out.class("group:realm-challenged-in-both-header-kinds");
         }
         for g in &round.groups {
-            if let Some(fs) = g.rows.iter().position(|r| r.ch.supported(sc.reject_md5)) {
+            let rows = srv_rows[g.realm].as_deref().unwrap_or(&g.rows);
+            if let Some(fs) = rows.iter().position(|r| r.ch.supported(sc.reject_md5)) {
                 if fs > 0 {
                     out.class("group:first-unsupported-then-supported");
                 }
             }
-            if g.rows.len() > 1 {
+            if rows.len() > 1 {
                 out.class("group:several-challenges-per-realm");
             }
         }
@@ -1141,12 +1302,18 @@ fn run_scenario(sc: &Scenario, out: &mut CaseOut) {
         if any_repeat {
             out.class("round:challenge-repeated-with-same-nonce");
             had_repeat_failure = true;
+            // the least advanced repeated realm of this response decides what is named
+            let k = outcomes.iter().filter(|o| o.1 == Outcome::Repeat).map(|o| repeats[o.0]).min().unwrap_or(1);
             match &result {
-                Err(sip_auth::Error::FailedToAuthenticate(_)) => {}
+                Err(sip_auth::Error::FailedToAuthenticate(_)) => {
+                    if k >= 2 {
+                        cx.flags.repeat_again = true;
+                    }
+                }
                 other => out.fail(
-                    "c18.seq/repeat-not-reported",
+                    if k >= 2 { "c18.seq/repeat-after-reported-failure-not-reported" } else { "c18.seq/repeat-not-reported" },
                     format!(
-                        "a challenge with an unchanged nonce must be reported as FailedToAuthenticate, got {:?}",
+                        "a challenge with an unchanged nonce (repetition number {k} since the answer) must be reported as FailedToAuthenticate, got {:?}",
                         other.as_ref().map_err(|e| e.to_string())
                     ),
                 ),
@@ -1172,8 +1339,25 @@ fn run_scenario(sc: &Scenario, out: &mut CaseOut) {
             }
         }
 
-        // --- the client (re)sends the request `uses` times
-        for use_no in 0..round.uses {
+        // --- the client (re)sends the request `uses` times (or gives up when nothing could be answered)
+        let gave_up = round.give_up_on_failure && !outcomes.is_empty() && outcomes.iter().all(|o| o.1 != Outcome::Answer);
+        if gave_up {
+            out.class("round:caller-gives-up-after-failure");
+        }
+        let uses = if gave_up { 0 } else { round.uses };
+        if gave_up {
+            // nothing is sent, so it cannot be seen whether the client still holds the entry of a realm whose
+            // new nonce it could not answer; what the OLD nonce means afterwards is not asserted (see below)
+            for o in &outcomes {
+                if o.1 == Outcome::Unsupported {
+                    srv_nonce[o.0] = None;
+                }
+                if o.1 != Outcome::NoCreds {
+                    maybe_dropped[o.0] = true;
+                }
+            }
+        }
+        for use_no in 0..uses {
             let mut hdrs = Headers::new();
             session.authorize_request(&mut hdrs);
             let rows = auth_rows(&hdrs);
@@ -1210,6 +1394,8 @@ fn run_scenario(sc: &Scenario, out: &mut CaseOut) {
                         match got {
                             None => {
                                 broken[ri] = false;
+                                maybe_dropped[ri] = false;
+                                srv_nonce[ri] = None;
                                 out.fail(
                                     "c18.answer/missing",
                                     format!(
@@ -1220,9 +1406,11 @@ fn run_scenario(sc: &Scenario, out: &mut CaseOut) {
                                 state[ri] = None;
                             }
                             Some((is_proxy, c)) => {
+                                maybe_dropped[ri] = false;
                                 let prev = state[ri].take();
                                 state[ri] = verify_first(&mut cx, c, *is_proxy, group, nonce, &cred, prev.as_ref(), out);
                                 broken[ri] = state[ri].is_none();
+                                srv_nonce[ri] = state[ri].as_ref().map(|a| a.nonce.clone());
                                 if sc.entries[ri].is_some() && sc.default.is_some() && state[ri].is_some() {
                                     out.class("creds:realm-entry-preferred-over-default");
                                 } else if sc.entries[ri].is_none() && state[ri].is_some() {
@@ -1235,12 +1423,33 @@ fn run_scenario(sc: &Scenario, out: &mut CaseOut) {
                     _ => {
                         // no new answer expected: reuse of what was accepted before, or nothing
                         let has_state = state[ri].is_some();
+                        let oc_kind = oc.map(|o| o.1);
                         match (has_state, got) {
                             (true, Some((is_proxy, c))) => {
-                                verify_reuse(&mut cx, state[ri].as_mut().unwrap(), c, *is_proxy, out)
+                                verify_reuse(&mut cx, state[ri].as_mut().unwrap(), c, *is_proxy, out);
+                                maybe_dropped[ri] = false;
+                                if oc_kind == Some(Outcome::Repeat) {
+                                    out.class("repeat:entry-still-sent-after-the-failure");
+                                }
+                            }
+                            (false, Some((_, c))) if oc_kind == Some(Outcome::Repeat) => {
+                                // the client had stopped sending the entry after an earlier repetition and
+                                // now sends credentials again: the unchanged nonce was answered again
+                                out.fail(
+                                    "c18.seq/answered-again-after-reported-failure",
+                                    format!(
+                                        "realm {:?}: repetition number {} of the unchanged nonce {:?} was answered again: {c:?}",
+                                        sc.realms[ri],
+                                        repeats[ri],
+                                        srv_nonce[ri]
+                                    ),
+                                );
+                                // nothing more is derived from this entry
+                                broken[ri] = true;
+                                srv_nonce[ri] = None;
                             }
                             (false, Some((_, c))) => {
-                                let why = match oc.map(|o| o.1) {
+                                let why = match oc_kind {
                                     Some(Outcome::NoCreds) => "no credentials are stored for it",
                                     Some(Outcome::Unsupported) => "none of its challenges is supported",
                                     _ => "it has no verified answer",
@@ -1249,20 +1458,39 @@ fn run_scenario(sc: &Scenario, out: &mut CaseOut) {
                                     "c18.answer/unexpected",
                                     format!("credentials for realm {:?} although {why}: {c:?}", sc.realms[ri]),
                                 );
+                                broken[ri] = true;
+                                srv_nonce[ri] = None;
                             }
                             (true, None) => {
-                                if oc.is_some() {
-                                    // the re-challenge could not be answered; dropping the entry is accepted
+                                if oc_kind == Some(Outcome::Repeat) {
+                                    // the re-challenge could not be answered; dropping the entry is accepted.
+                                    // The server still knows the nonce: the next repetition is one, too
                                     state[ri] = None;
+                                    out.class("repeat:entry-dropped-after-the-failure");
+                                } else if oc.is_some() {
+                                    // same, after a new nonce without supported challenge; what a later
+                                    // challenge with the OLD nonce means now is not asserted: forget it
+                                    state[ri] = None;
+                                    srv_nonce[ri] = None;
+                                } else if maybe_dropped[ri] {
+                                    // dropped in an earlier round after which nothing was sent (`srv_nonce` is
+                                    // still known exactly when that failure was a repetition)
+                                    state[ri] = None;
+                                    out.class("round:entry-dropped-after-unanswerable-challenge");
                                 } else {
                                     out.fail(
                                         "c18.reuse/dropped",
                                         format!("accepted credentials for realm {:?} are no longer sent", sc.realms[ri]),
                                     );
                                     state[ri] = None;
+                                    srv_nonce[ri] = None;
                                 }
                             }
-                            (false, None) => {}
+                            (false, None) => {
+                                if oc_kind == Some(Outcome::Unsupported) {
+                                    srv_nonce[ri] = None;
+                                }
+                            }
                         }
                     }
                 }
@@ -1310,7 +1538,7 @@ fn run_scenario(sc: &Scenario, out: &mut CaseOut) {
     if f.non_ascii_cred {
         out.class("creds:non-ascii");
     }
-    if f.sess || f.auth_int || f.userhash || f.reuse || f.non_ascii_cred || answered >= 2 {
+    if f.sess || f.auth_int || f.userhash || f.reuse || f.non_ascii_cred || f.repeat_again || answered >= 2 {
         out.nontrivial(&serde_json::to_string(sc).unwrap_or_default());
     }
 }
@@ -1343,9 +1571,11 @@ fn check_first_use(fu: &FirstUse, out: &mut CaseOut) {
                 repeat: false,
                 nonce: fu.nonce.clone(),
                 rows: vec![RowS { proxy: fu.proxy, ch: fu.ch.clone() }],
+                same_rows: false,
             }],
             basic_noise: false,
             uses: 1 + fu.reuses,
+            give_up_on_failure: false,
         }],
     };
     if fu.nonce.is_empty() {
@@ -1375,20 +1605,25 @@ pub fn property() -> Property {
         id: "C18",
         rule: "a case is a credential store, a request (method, Request-URI, body) and one or more 401/407 responses with Digest challenges; \
                it counts as non-trivial when at least one produced header was verified by the reference verifier AND the case involves a -sess \
-               algorithm, qop=auth-int, userhash, a verified reuse (nc >= 2), non-ASCII credentials, or >= 2 answered realms; distinct = distinct case value",
+               algorithm, qop=auth-int, userhash, a verified reuse (nc >= 2), non-ASCII credentials, >= 2 answered realms, or an answered nonce that \
+               was challenged again at least twice in a row and reported as failure each time; distinct = distinct case value",
         assumptions: vec![
             "realm, nonce, opaque are qdtext (no quoted-pairs); parameter names lower case; algorithm/stale/userhash are tokens; one challenge per header row (RFC 3261 §7.3.1)",
             "user names contain no ':'; Request-URIs carry no ?headers (RFC 3261 Table 1); extension methods do not start with a well-known method name",
             "all challenges of one realm in one response share the nonce and have distinct algorithms (RFC 8760 §2.4)",
+            "an unchanged nonce is the nonce of the latest answer the verifier accepted for the realm; it stays that through any number of repetitions, also when the client stops sending the entry after a reported failure",
             "reuse is verified against the request the header was created for (on_authorize_request gets no request)",
             "the reference verifier (src/refmodel/ref_digest.rs) is checked against the RFC 2617 and RFC 7616 example vectors by unit tests",
         ],
         explanation: "sampled, not exhaustive: algorithm (6 + 2 unknown) x qop-set (8) x userhash (3) x opaque (absent/empty/text) x stale x parameter order are drawn \
                       uniformly so every combination of the finite dimensions occurs many times per run (see classes), strings (realm, nonce, user, password, body, URI) are random; \
-                      sequences of up to 4 responses over up to 4 realms with up to 3 challenges per realm and up to 3 uses per round",
+                      sequences of up to 4 responses over up to 4 realms with up to 3 challenges per realm and up to 3 uses per round; \
+                      failure histories of 3..8 responses over 1..2 realms (fresh nonce / identical challenge again / same nonce with other rows / \
+                      fresh nonce without supported challenge; the caller sends the request or gives up after a failure)",
         subs: vec![
             prop_sub("first_use_and_reuse", first_use_strategy, 2000, 60000, check_first_use),
             prop_sub("challenge_sequences", scenario_strategy, 2000, 60000, check_sequences),
+            prop_sub("failure_histories", history_strategy, 1000, 30000, check_sequences),
         ],
     }
 }
